@@ -1191,6 +1191,82 @@ def denote_text(t):
     return t
 
 
+# swept values next to a configured value of another shape / type (a value that "equals" the configured one by broadcasting
+# or by numeric coercion is still the value assigned)
+CONFIGURED_VS_SWEPT = [([2.0, 2.0], [2.0, 3.0]), ([], [5, 7]), ([], ["abc", "de"]), (100, [100.0, 7.5]), (1, [True, 2]), (True, [1, 0]),
+                       (0, [False, 3]), (2.5, [2.5, 3.5]), ([1, 1], [1, 2]), (7.0, [7, 8]), ("7", [7, 8]), ([0.5], [0.5, 1.5])]
+
+
+def directed_sweepval_cases():
+    out = []
+    for configured, vals in CONFIGURED_VS_SWEPT:
+        world = {"kind": "CCD", "rows": 2, "cols": 2,
+                 "groups": [["photon_collection", [{"name": "tag", "enabled": True, "args": {"label": configured, "level": 1}}]]]}
+        for mode in ("product", "sequential"):
+            out.append({"stream": "sweepval", "world": world, "key": ["pipeline", "photon_collection", "tag", "arguments", "label"],
+                        "values": list(vals), "expected": [tag(v) for v in vals], "mode": mode, "dask": False})
+    return out
+
+
+# ------------------------------------------------------------------ one Observation object run twice (sequential mode)
+def gen_rerun_cases(rng, n):
+    cases = []
+    for _ in range(n):
+        a0, b0 = rng.choice([1, 5, 2.5]), rng.choice([10, 40, 0.5])
+        cases.append({"stream": "rerun", "a0": a0, "b0": b0, "a_vals": [a0 + 1, a0 + 2], "b_vals": [b0 + 10, b0 + 20],
+                      "change": rng.choice(["a", "b"]), "new": rng.choice([77, 0.125, 900]), "how": rng.choice(["override", "set"]),
+                      "mode": rng.choice(["sequential", "sequential", "product"])})
+    return cases
+
+
+def rerun_expected(case, a_cfg, b_cfg):
+    """(a, b) received at every pipeline of one run, by the definition of the mode"""
+    if case["mode"] == "product":
+        return [[a, b] for a in case["a_vals"] for b in case["b_vals"]]
+    return [[a, b_cfg] for a in case["a_vals"]] + [[a_cfg, b] for b in case["b_vals"]]
+
+
+def run_rerun_impl(case):
+    import probes
+    import pyxel
+    from pyxel.observation import Observation, ParameterValues
+
+    world = {"kind": "CCD", "rows": 2, "cols": 2,
+             "groups": [["photon_collection", [{"name": "tag", "enabled": True, "args": {"a": case["a0"], "b": case["b0"]}}]]]}
+    proc = build(world)
+    K = "pipeline.photon_collection.tag.arguments."
+    obs = Observation(parameters=[ParameterValues(key=K + "a", values=list(case["a_vals"])),
+                                  ParameterValues(key=K + "b", values=list(case["b_vals"]))], mode=case["mode"])
+    runs = []
+    for i in range(2):
+        probes.reset()
+        kw = {}
+        if i == 1:
+            if case["how"] == "override":
+                kw["override_dct"] = {K + case["change"]: case["new"]}
+            else:
+                proc.set(K + case["change"], case["new"])
+        r = attempt(lambda: pyxel.run_mode(mode=obs, detector=proc.detector, pipeline=proc.pipeline, **kw))
+        got = [[json.loads(x[3]).get("a"), json.loads(x[3]).get("b")] for x in probes.LOG if x[2] == "tag"]
+        runs.append({"run": "ok" if "ok" in r else r["err"], "msg": r.get("msg"), "received": got})
+    return {"runs": runs}
+
+
+def rerun_predicate(case, impl):
+    from probes import _canon_val
+
+    cfgs = [(case["a0"], case["b0"])]
+    cfgs.append((case["new"], case["b0"]) if case["change"] == "a" else (case["a0"], case["new"]))
+    for i, (run, (a_cfg, b_cfg)) in enumerate(zip(impl["runs"], cfgs)):
+        want = json.loads(json.dumps([[_canon_val(a), _canon_val(b)] for a, b in rerun_expected(case, a_cfg, b_cfg)]))
+        if run["received"] != want:
+            return ("observation-rerun:%s:wrong-values" % case["mode"],
+                    "run %d of one %s Observation (configured a=%r, b=%r%s): the model received (a, b) = %s, the mode denotes %s"
+                    % (i + 1, case["mode"], a_cfg, b_cfg, "" if i == 0 else ", %s changed through %s after run 1" % (case["change"], case["how"]),
+                       json.dumps(run["received"]), json.dumps(want)))
+    return None
+
+
 # ------------------------------------------------------------------ histories: sets interleaved with copies
 COPY_KINDS = ["deepcopy", "replace", "create_new_processor", "update_processor"]
 
@@ -1419,6 +1495,8 @@ def body(ck: common.Check):
         if c is not None and len(c["values"]) >= 2:
             sv_cases.append(c)
 
+    sv_cases += directed_sweepval_cases()
+    rerun_cases = gen_rerun_cases(rng, 12 if quick else 80)
     # ---- stream 6: calibration with several scalar / vector variables in every declaration order
     cal_cases = []
     for _ in range(60 if quick else 600):
@@ -1595,6 +1673,14 @@ def body(ck: common.Check):
     finally:
         shutil.rmtree(tmp_ov, ignore_errors=True)
 
+    for c in rerun_cases:
+        impl = run_rerun_impl(c)
+        ck.case(c, nontrivial=True, stream="rerun")
+        ck.count("rerun:%s/%s" % (c["mode"], c["how"]))
+        why = rerun_predicate(c, impl)
+        if why is not None:
+            ck.violation("C08:" + why[0], why[1], {"case": c, "impl": impl})
+
     k = 0
     for c in sv_cases:
         impl = run_sweepval_impl(c)
@@ -1612,7 +1698,10 @@ def body(ck: common.Check):
             if isinstance(v, str) and model != {"ok": canon_py(untag(t))}:
                 ck.disagreement("sweepval", {"text": v}, {"ok": canon_py(untag(t))}, model)
 
-    ck.rule = ("calvars: the real update_processor with 2-5 calibration variables (model arguments as scalar '_' or vector of 1-3 '_', "
+    ck.rule = ("rerun: ONE Observation object (two swept arguments, sequential / product mode) run twice, a configured value of one swept "
+               "key changed between the runs through override_dct or Processor.set — every pipeline's received (a, b) against the "
+               "mode's definition; sweepval also has swept values next to configured values of another shape / type (list vs scalar, "
+               "empty list, int vs float vs bool vs text); calvars: the real update_processor with 2-5 calibration variables (model arguments as scalar '_' or vector of 1-3 '_', "
                "numeric detector fields) in shuffled declaration orders incl. vector-first, distinct decision-vector entries, every "
                "setting read back; override: pyxel.run(file, override=['key=value']) with values containing '=', ',', ':', ';', quotes, "
                "literals and bare words (the probe model records what it receives); sweepval: sweeps over a declared argument of an enabled model with 2-5 values — quoted literals ('\"42\"', \"'3.5'\", "
@@ -1667,6 +1756,10 @@ def replay(rp):
         impl = run_key_impl(case)
         print("impl:", {k: v for k, v in impl.items() if k not in ("det_tree", "extras")})
         why = key_predicate(case, impl)
+    elif st == "rerun":
+        impl = run_rerun_impl(case)
+        print("impl:", impl)
+        why = rerun_predicate(case, impl)
     elif st == "calvars":
         impl = run_calvars_impl(case)
         print("impl:", {k: v for k, v in impl.items() if k not in ("det_tree", "extras")})
